@@ -27,7 +27,7 @@ for d in sorted(glob.glob("/verif/seeded/*/")):
         last = rc[-1]
         mm = re.search(r"cases=(\d+).*failing=(\d+).*disagree=(\d+)", " ".join(last.get("lines", [])))
         kind = last.get("replay_kind") or ""
-        checks.append(("latest run (verif %s, repo %s): " % (last.get("verif_head"), last.get("repo_head")))
+        checks.append(("latest run (verif %s, repo %s): " % (last.get("verif_head"), (last.get("applied_on_base") + " [the change's own base: it no longer applies to HEAD]") if last.get("applied_on_base") else last.get("repo_head")))
                       + (("VIOLATION, " + ("no failing input (correspondence)" if kind == "correspondence" else "failing input")
                           + (f" ({mm.group(2)} failing / {mm.group(3)} disagreeing of {mm.group(1)} cases)" if mm else "")) if last.get("caught") else "not reported")
                       + ("" if first_caught or not last.get("caught") else " — missed when first run, reported after the strengthening described in section 14.4"))
